@@ -201,7 +201,7 @@ def c14c(ctx):
     rets = [r.value.id for r in returns_of(cb.node) if isinstance(r.value, ast.Name) and r.value.id not in cb.params]
     R = rets[0] if rets else '?'
     comb = [x for x in cb.walk() if is_call(x, 'combined_layer')]
-    ok = len(comb) == 1 and unparse(comb[0].func.value) == '%s[-1]' % R and isinstance(comb[0].args[0], ast.Name)
+    ok = len(comb) == 1 and same(comb[0].func.value, '%s[-1]' % R) and isinstance(comb[0].args[0], ast.Name)
     L = comb[0].args[0].id if ok else '?'
     ctx.check(ok, 'combined_layers:adjacent-only', 'only the last combined layer and the next layer (adjacent) are merged', cb,
               fail='non-adjacent layers can be combined: a layer in between changes its position in the stack')
